@@ -500,6 +500,9 @@ class Engine:
         if re.match(r"^[A-Za-z_]\w*(::[A-Za-z_]\w*)*::[A-Z]\w*$", s):
             # a tuple-variant constructor used as a function item, e.g. `Value::Int`
             return ("ctor", "::".join(s.split("::")[-2:]))
+        if re.match(r"^[a-z_]\w*(::[A-Za-z_]\w*)*(::<.*>)?$", s) and (s in self.fns or any(n.endswith("::" + s) or s.endswith("::" + n) for n in self.fns) or "::" in s):
+            # a function item passed as a value (e.g. a parser function handed to a combinator)
+            return ("fnitem", s)
         raise Unsupported("operand " + s)
 
     def wrap(self, v, ty):
@@ -581,6 +584,8 @@ class Engine:
             return self.binop(m.group(1), a, b, ty)
         if m and m.group(1) == "Neg":
             v = self.operand(frame, m.group(2))
+            if dst_ty == "f64" and is_sym(v) and z3.is_fp(v):
+                return z3.fpNeg(v)
             if dst_ty not in INT_RANGES:
                 raise Unsupported("Neg on " + dst_ty)
             return self.wrap(-v, dst_ty)
@@ -635,6 +640,11 @@ class Engine:
             v = self.operand(frame, cm.group(1))
             kind, ty = cm.group(3), cm.group(2)
             if kind == "IntToInt":
+                # a widening cast cannot wrap: keep the term free of mod-2^k arithmetic
+                sm = re.match(r"^(?:copy|move) _(\d+)$", cm.group(1).strip())
+                sty = fn.types.get(int(sm.group(1))) if sm else None
+                if sty in INT_RANGES and ty in INT_RANGES and INT_RANGES[sty][0] >= INT_RANGES[ty][0] and INT_RANGES[sty][1] <= INT_RANGES[ty][1]:
+                    return v
                 return self.wrap(v, ty)
             if kind == "FloatToInt" and ty in INT_RANGES and is_sym(v) and z3.is_fp(v):
                 # `as` saturates and maps NaN to 0
@@ -1128,6 +1138,79 @@ def ext_opt_mutators(e, m, args):
     return Ref(r.frame, r.local, list(r.proj) + [("field", 0)])
 
 
+def ext_bool_then(e, m, args):
+    b, clo = args
+    if e.decide(b):
+        return ("Some", _closure_call(e, m, [], clo))
+    return ("None",)
+
+
+def ext_bool_then_some(e, m, args):
+    b, v = args
+    return ("Some", v) if e.decide(b) else ("None",)
+
+
+def ext_res_try_branch(e, m, args):
+    r = args[0]
+    if r[1].endswith("Ok"):
+        return ("enum", "ControlFlow::Continue", [r[2][0]])
+    return ("enum", "ControlFlow::Break", [("enum", "Result::Err", [r[2][0]])])
+
+
+def ext_res_unwrap_or(e, m, args):
+    r = args[0]
+    return r[2][0] if r[1].endswith("Ok") else args[1]
+
+
+def ext_unwrap_or_default(e, m, args):
+    """Result / Option ::unwrap_or_default for the integer, bool and unit payload types"""
+    r = args[0]
+    if isinstance(r, tuple) and r[0] == "Some":
+        return r[1]
+    if isinstance(r, tuple) and r[0] == "enum" and r[1].endswith("Ok"):
+        return r[2][0]
+    ty = m.group(1)
+    if ty in INT_RANGES:
+        return 0
+    if ty == "bool":
+        return False
+    raise Unsupported("unwrap_or_default for " + ty)
+
+
+def ext_opt_filter(e, m, args):
+    o, clo = args
+    if o[0] == "None":
+        return o
+    keep = _closure_call(e, m, [Ref({0: o[1]}, 0, ())], clo)
+    return o if e.decide(keep) else ("None",)
+
+
+def ext_opt_is_some_and(e, m, args):
+    o, clo = args
+    if o[0] == "None":
+        return False
+    return _closure_call(e, m, [o[1]], clo)
+
+
+def ext_int_try_from(e, m, args):
+    dst = m.group(1)
+    lo, hi = INT_RANGES[dst]
+    v = args[0]
+    inr = z3.And(v >= lo, v <= hi) if is_sym(v) else (lo <= v <= hi)
+    if e.decide(inr):
+        return ("enum", "Result::Ok", [v])
+    return ("enum", "Result::Err", [("unit",)])
+
+
+def ext_int_checked(e, m, args):
+    ty, op = m.group(1), m.group(2)
+    lo, hi = INT_RANGES[ty]
+    x, y = args
+    v = {"add": lambda: x + y, "sub": lambda: x - y, "mul": lambda: x * y}[op]()
+    inr = z3.And(v >= lo, v <= hi) if is_sym(v) else (lo <= v <= hi)
+    return ("Some", v) if e.decide(inr) else ("None",)
+
+
 STD_MODELS = [
     (r"^(?:std::option::)?Option::<.*>::(take|replace|insert|get_or_insert)$", ext_opt_mutators),
     (r"^(?:std::option::)?Option::<.*>::(unwrap|expect)$", ext_opt_unwrap),
@@ -1174,4 +1257,16 @@ STD_MODELS = [
     (r"^std::option::Option::<.*>::ok_or::<.*>$", ext_generic_ok_or),
     (r"^std::result::Result::<.*>::map::<.*\{closure@.*\}>$", ext_res_map),
     (r"^std::result::Result::<.*>::map_err::<.*\{closure@.*\}>$", ext_res_map_err),
+    # ---- general fallbacks (spec-local models are matched first)
+    (r"^core::bool::<impl bool>::then::<.*>$", ext_bool_then),
+    (r"^core::bool::<impl bool>::then_some::<.*>$", ext_bool_then_some),
+    (r"^<(?:std::result::)?Result<.*> as Try>::branch$", ext_res_try_branch),
+    (r"^<(?:std::result::)?Result<.*> as FromResidual<(?:std::result::)?Result<Infallible, .*>>>::from_residual$", lambda e, m, a: ("enum", "Result::Err", [a[0][2][0]])),
+    (r"^std::result::Result::<.*>::unwrap_or$", ext_res_unwrap_or),
+    (r"^std::result::Result::<(\w+), .*>::unwrap_or_default$", ext_unwrap_or_default),
+    (r"^std::option::Option::<(\w+)>::unwrap_or_default$", ext_unwrap_or_default),
+    (r"^std::option::Option::<.*>::filter::<.*>$", ext_opt_filter),
+    (r"^std::option::Option::<.*>::is_some_and::<.*>$", ext_opt_is_some_and),
+    (r"^<(usize|u64|i64|u32|i32|u8|i128|u128) as TryFrom<(?:usize|u64|i64|u32|i32|u8|i128|u128)>>::try_from$", ext_int_try_from),
+    (r"^core::num::<impl (usize|u64|i64|u32|i32|i128|u128)>::checked_(add|sub|mul)$", ext_int_checked),
 ]
